@@ -301,3 +301,6 @@ def run(cx):
     cx.guard(r4, mods)
     cx.guard(r5_context_dependency)
     cx.guard(r6_flag_propagation)
+    # registration is append-only for the whole process: an evaluation never edits the registry's dependency sets (C01.R5 re-checked)
+    from . import c01
+    cx.borrow(c01.r5b_graph_as_requested, "C01.R5", "C05.R2", "registration order is append-only; nothing an evaluation does removes an implementation from a registry point")
